@@ -176,6 +176,14 @@ Definition mon_drv_indep (ins : list N) : bool :=
 
 Definition queue_monitor (k : N) (ins : list N) : list N :=
   if k =? 160 then [b2n (mon_safe ins)] else
+  (* kind 167 (C04): add_notify_wait_pop refused because an earlier chain completed first:
+     [class; is WrongToken; unshares during the refused call; shares during it; expected shares; class of the later pop of
+      the helper's own chain; unshares of that pop; platform-contract violations]: the refusal is WrongToken, the buffers
+     were shared once and stay shared until their own completion is consumed, which unshares each exactly once *)
+  if k =? 167 then match ins with
+                   | [class; wrong; un1; sh; esh; class2; un2; viol] =>
+                       [b2n ((class =? 1) && (wrong =? 1) && (un1 =? 0) && (sh =? esh) && (class2 =? 0) && (un2 =? esh) && (viol =? 0))]
+                   | _ => [77777] end else
   (* kind 163 (C03 / C04): [buffers; queue size; class; is QueueFull; shares; state unchanged]: a chain longer than the
      queue is refused with QueueFull, shares nothing and changes nothing *)
   if k =? 163 then match ins with
